@@ -6,7 +6,7 @@ from ..rt import check
 STREAMS = ["execute", "execute-blocking"]
 RULE = ("sequences of 1..8 execute calls: flavour x calling context (outside thread, thread payload, coroutine payload "
         "of another flavour) x outcome (None, falsy and truthy objects compared with `is`, Exception subclasses compared "
-        "with `is`) x argument lists, interleaved with adopted bystanders and a heartbeat payload; afterwards the "
+        "with `is`) x argument lists (payloads may be decorated callables whose wrapper takes other arguments than functools.wraps advertises), interleaved with adopted bystanders and a heartbeat payload; afterwards the "
         "runtime must still be running until the harness shuts it down; events replayed on the Lean LTS; non-trivial = "
         "at least two payloads; distinct = distinct scenario")
 ASSUMPTIONS = ["same-flavour execute from inside a coroutine payload deadlocks or raises by construction of asyncio / trio: outside the statement",
